@@ -22,6 +22,14 @@ theorem aget_append_single {α β : Type} [DecidableEq α] (k k' : α) (v : β) 
     · simp [aget, h]
     · simp [aget, h, ih]
 
+theorem mem_ite_sadd_of_mem {α : Type} [DecidableEq α] {c : Prop} [Decidable c] {x y : α} {l : List α}
+    (h : y ∈ l) : y ∈ (if c then sadd x l else l) := by
+  split <;> simp [mem_sadd, h]
+
+theorem mem_ite_sadd_self {α : Type} [DecidableEq α] {c : Prop} [Decidable c] {x : α} {l : List α}
+    (hc : c) : x ∈ (if c then sadd x l else l) := by
+  simp [hc, mem_sadd]
+
 structure Inv (s : GState R O) : Prop where
   c0 : s.started = false → s.spawning = false ∧ s.spawned = [] ∧ s.everOn = false ∧
         ∀ ro, s.workers ro = none
@@ -200,16 +208,18 @@ theorem step_inv {s s' : GState R O} (l : Label R O) (hi : Inv s) (h : step .non
       | some w => simp [hsp, hw] at h
       | none =>
         simp only [hsp, hw] at h
-        by_cases hg : gated = (!(decide (r ∈ s.detached) || s.isOn)) ∧
-            hasToggle = (!(decide (r ∈ s.detached) || s.isOn) && ind)
-        · simp only [hg, and_self, if_true, Option.some.injEq] at h
-          obtain ⟨hg1, hg2⟩ := hg
+        split at h
+        · rename_i hg
+          simp only [Option.some.injEq] at h
+          have hg1 : gated = (!(decide (r ∈ s.detached) || s.isOn)) := hg.1
+          have hg2 : hasToggle = (!(decide (r ∈ s.detached) || s.isOn) && ind) := hg.2
           have hst := started_of_spawned hi hsp
           -- facts about the decision
           have hdet_ev : (decide (r ∈ s.detached) || s.isOn) = true → (s.everOn || s.isOn) = true := by
             intro hd
-            rcases Bool.or_eq_true _ _ |>.1 hd with h1 | h1
-            · have := hi.c4 r (by simpa using h1); simp [this]
+            have hd' : r ∈ s.detached ∨ s.isOn = true := by simpa using hd
+            rcases hd' with h1 | h1
+            · have := hi.c4 r h1; simp [this]
             · simp [h1]
           have hnew : ind = true → r ∉ s.listed → (decide (r ∈ s.detached) || s.isOn) = false := by
             intro hind hnl
@@ -227,70 +237,78 @@ theorem step_inv {s s' : GState R O} (l : Label R O) (hi : Inv s) (h : step .non
           refine ⟨by simp [hst], hi.c1, hi.c1', hi.c2, ?_, ?_, ?_, ?_, ?_⟩
           · -- c3
             intro ro hro hni
-            simp only at hro hni ⊢
+            have hro' : ro ∈ (if (ind && !decide (r ∈ s.listed)) = true then sadd (r, o) s.listing
+                               else s.listing) := hro
+            have hni' : ro ∉ s.indexedOnce := hni
+            show ro ∈ (if (!(decide (r ∈ s.detached) || s.isOn) && ind) = true then sadd (r, o) s.objTog
+                        else s.objTog)
             by_cases hcond : (ind && !decide (r ∈ s.listed)) = true
-            · simp only [hcond, if_true, mem_sadd] at hro
+            · rw [if_pos hcond, mem_sadd] at hro'
               simp only [Bool.and_eq_true, Bool.not_eq_true', decide_eq_false_iff_not] at hcond
               have hd := hnew hcond.1 hcond.2
-              rcases hro with hro | hro
-              · subst hro
-                simp [hd, hcond.1, mem_sadd]
-              · have := hi.c3 ro hro hni
-                by_cases ht : (!(decide (r ∈ s.detached) || s.isOn) && ind) = true
-                · simp [ht, mem_sadd, this]
-                · simp [ht, this]
-            · simp only [hcond] at hro
-              have := hi.c3 ro hro hni
-              by_cases ht : (!(decide (r ∈ s.detached) || s.isOn) && ind) = true
-              · simp [ht, mem_sadd, this]
-              · simp [ht, this]
+              rcases hro' with hro' | hro'
+              · subst hro'
+                exact mem_ite_sadd_self (by simp [hd, hcond.1])
+              · exact mem_ite_sadd_of_mem (hi.c3 ro hro' hni')
+            · rw [if_neg hcond] at hro'
+              exact mem_ite_sadd_of_mem (hi.c3 ro hro' hni')
           · -- c4
             intro r0 hr0
-            simp only at hr0 ⊢
+            have hr0' : r0 ∈ (if (decide (r ∈ s.detached) || s.isOn) = true then sadd r s.detached
+                               else s.detached) := hr0
+            show (s.everOn || s.isOn) = true
             by_cases hd : (decide (r ∈ s.detached) || s.isOn) = true
             · exact hdet_ev hd
-            · simp only [hd] at hr0
-              have := hi.c4 r0 hr0
+            · rw [if_neg hd] at hr0'
+              have := hi.c4 r0 hr0'
               simp [this]
           · -- c5
             intro ro w hw' hpc
-            simp only at hw' ⊢
+            have hw'' : upd s.workers (r, o) (some ⟨.queued, gated, hasToggle⟩) ro = some w := by
+              rw [hg1, hg2]; exact hw'
+            show ro ∈ s.indexedOnce
             by_cases he : ro = (r, o)
             · subst he
-              rw [upd_same] at hw'
-              cases hw'
+              rw [upd_same] at hw''
+              cases hw''
               exact absurd rfl hpc
-            · rw [upd_other _ _ _ he] at hw'
-              exact hi.c5 ro w hw' hpc
+            · rw [upd_other _ _ _ he] at hw''
+              exact hi.c5 ro w hw'' hpc
           · -- a
             intro he
-            simp only [Bool.or_eq_false_iff] at he
-            refine ⟨(hi.a he.1).1, ?_⟩
+            have he' : (s.everOn || s.isOn) = false := he
+            simp only [Bool.or_eq_false_iff] at he'
+            refine ⟨(hi.a he'.1).1, ?_⟩
             intro ro w hw'
-            simp only at hw'
+            have hw'' : upd s.workers (r, o) (some ⟨.queued, gated, hasToggle⟩) ro = some w := by
+              rw [hg1, hg2]; exact hw'
             by_cases heq : ro = (r, o)
             · subst heq
-              rw [upd_same] at hw'
-              cases hw'
-              have hnd : r ∉ s.detached := fun hd => by have := hi.c4 r hd; simp [he.1] at this
-              simp [hnd, he.2]
-            · rw [upd_other _ _ _ heq] at hw'
-              exact (hi.a he.1).2 ro w hw'
+              rw [upd_same] at hw''
+              cases hw''
+              have hnd : r ∉ s.detached := fun hd => by have := hi.c4 r hd; simp [he'.1] at this
+              simp [hg1, hnd, he'.2]
+            · rw [upd_other _ _ _ heq] at hw''
+              exact (hi.a he'.1).2 ro w hw''
           · -- b
             intro he
-            simp only at he
+            have he' : s.everOn = true ∨ s.isOn = true := by
+              have : (s.everOn || s.isOn) = true := he
+              simpa using this
             have hready : Ready s := by
-              rcases Bool.or_eq_true _ _ |>.1 he with h1 | h1
+              rcases he' with h1 | h1
               · exact hi.b h1
               · exact ready_of_isOn hi h1
             refine ready_mono hready rfl rfl rfl rfl (fun _ h => h) ?_ (fun _ h => h)
             intro ro hro
-            simp only at hro
+            have hro' : ro ∈ (if (ind && !decide (r ∈ s.listed)) = true then sadd (r, o) s.listing
+                               else s.listing) := hro
             by_cases hcond : (ind && !decide (r ∈ s.listed)) = true
             · simp only [Bool.and_eq_true, Bool.not_eq_true', decide_eq_false_iff_not] at hcond
               exact absurd (hready.2.2.2.1 r (hcond.1 ▸ hsp)) hcond.2
-            · simpa [hcond] using hro
-        · simp [hg] at h
+            · rw [if_neg hcond] at hro'
+              exact hro'
+        · cases h
   | listed r =>
     simp only [step] at h
     cases hsp : aget r s.spawned with
@@ -335,8 +353,9 @@ theorem step_inv {s s' : GState R O} (l : Label R O) (hi : Inv s) (h : step .non
     | none => simp [hw] at h
     | some w =>
       simp only [hw] at h
-      by_cases hg : (w.pc = .indexed ∨ (Bug.none = Bug.dropBeforeIndex ∧ w.pc = .queued)) ∧ w.gated = true
-      · simp only [hg, and_self, if_true, Option.some.injEq] at h
+      split at h
+      · rename_i hg
+        simp only [Option.some.injEq] at h
         have hpc : w.pc = .indexed := by
           rcases hg.1 with h1 | h1
           · exact h1
@@ -356,7 +375,7 @@ theorem step_inv {s s' : GState R O} (l : Label R O) (hi : Inv s) (h : step .non
           hw (fun _ => hio) (fun _ => Or.inr (Or.inr rfl))
         subst h
         exact hi'
-      · simp [hg] at h
+      · cases h
   | pass r o =>
     simp only [step] at h
     cases hw : s.workers (r, o) with
